@@ -1,7 +1,8 @@
 //! Configuration cases (C17); one process per case (the configuration is process-global).
 //! case: mode(0 entity, 1 yaml) sc_total iv_total sc iv
 //! out : accepted(0/1) ; if accepted:
-//!       main reads (sc_total iv_total sc iv) ; other thread reads (4) ;
+//!       main reads (sc_total iv_total sc iv) ; a thread spawned afterwards reads (4) ;
+//!       a worker thread that had already read the configuration before it was installed reads (4) ;
 //!       build+exit on the main thread (0 ok / -1 panic), node geometry (4) ;
 //!       build+exit on another thread (0 / -1), node geometry (4)
 use crate::util::*;
@@ -38,6 +39,16 @@ pub fn run_case(t: &mut Toks) -> Vec<i128> {
     clock::set_ms(1_700_000_000_000);
     let mode = t.u64();
     let (sct, ivt, sc, iv) = (t.u32(), t.u32(), t.u32(), t.u32());
+    // a long-lived worker that reads the configuration before it is installed, and again afterwards
+    let (to_worker, worker_rx) = std::sync::mpsc::channel::<()>();
+    let (worker_tx, from_worker) = std::sync::mpsc::channel::<Vec<i128>>();
+    let worker = std::thread::spawn(move || {
+        let _ = worker_tx.send(reads());
+        if worker_rx.recv().is_ok() {
+            let _ = worker_tx.send(reads());
+        }
+    });
+    let _ = from_worker.recv();
     let accepted = if mode == 0 {
         let mut e = ConfigEntity::new();
         e.config.stat.sample_count_total = sct;
@@ -75,6 +86,9 @@ pub fn run_case(t: &mut Toks) -> Vec<i128> {
     out.extend(reads());
     let other = std::thread::spawn(reads).join().unwrap_or_else(|_| vec![-1; 4]);
     out.extend(other);
+    let _ = to_worker.send(());
+    out.extend(from_worker.recv().unwrap_or_else(|_| vec![-1; 4]));
+    let _ = worker.join();
     out.extend(touch("cfg_main".into()));
     let o2 = std::thread::spawn(|| touch("cfg_other".into())).join().unwrap_or_else(|_| vec![-1; 5]);
     out.extend(o2);
